@@ -245,6 +245,95 @@ theorem grow_get {c : Conn α} (h : Inv c) (hdr : Hdr) (ver : Ver) (budget : Opt
         · exact grow_statusEx c _ _
         · exact grow_getGo h _ _ _ _ _
 
+/-! ### evictions: only EVICT touches `purged`, and it only moves forward, never past the end of the log -/
+
+theorem replayLoop_purged (c : Conn α) (ex sid k : Nat) (items : List (Item α)) :
+    (replayLoop c ex sid k items).1.purged = c.purged := by
+  induction items generalizing c k with
+  | nil => rfl
+  | cons it rest ih =>
+    unfold replayLoop
+    split
+    · rw [ih]; rfl
+    · rfl
+
+theorem step_purged_other (c : Conn α) (l : Label α) (hl : ∀ sid n, l ≠ .evict sid n) : (step c l).purged = c.purged := by
+  cases l with
+  | evict sid n => exact absurd rfl (hl _ _)
+  | post calls listen ver b =>
+    show (post c calls listen ver b).purged = c.purged
+    unfold post
+    split
+    · rfl
+    · split
+      · rfl
+      · rw [postNew_eq]
+        have : (postPrimed c (dedup calls) listen ver b).purged = c.purged := by
+          unfold postPrimed; split <;> rfl
+        split
+        · simp [cut, finish, this]
+        · exact this
+  | write msg ctx ctxNew =>
+    show (writeR c msg ctx ctxNew).1.purged = c.purged
+    unfold writeR
+    split
+    · rfl
+    · split
+      · unfold eraseResp; split <;> rfl
+      · split
+        · unfold eraseResp; split <;> rfl
+        · simp only [writeTo]; unfold eraseResp; split <;> rfl
+  | cut ex => rfl
+  | wfail ex => rfl
+  | get hdr ver budget =>
+    show (get c hdr ver budget).purged = c.purged
+    have hgo : ∀ sid frm items, (getGo c sid frm ver budget items).purged = c.purged := by
+      intro sid frm items
+      have b1 : (getOpen c sid frm budget).purged = c.purged := by unfold getOpen; split <;> rfl
+      have b2 := replayLoop_purged (getOpen c sid frm budget) c.exs.length sid frm items
+      unfold getGo
+      split
+      · split
+        · simp [finish, b1, b2]
+        · split
+          · simp [finish, b1, b2]
+          · unfold attach; split <;> simp [cut, finish, b1, b2]
+      · simp [finish, b1, b2]
+    unfold get
+    split
+    · rfl
+    · split
+      · rfl
+      · split
+        · rfl
+        · split
+          · rfl
+          · exact hgo _ _ _
+  | sclose req retry =>
+    show (sclose c req retry).purged = c.purged
+    unfold sclose
+    split
+    · rfl
+    · split
+      · rfl
+      · split
+        · split <;> rfl
+        · rfl
+  | «end» => rfl
+
+/-- the store never evicts what it does not hold: `purged sid ≤ |log sid|` -/
+def InvP (c : Conn α) : Prop := ∀ sid, c.purged sid ≤ ((c.store sid).getD []).length
+
+theorem invP_init (cfg : Cfg) : InvP (init cfg : Conn α) := by intro sid; simp [init]
+
+theorem logLen_mono {c c' : Conn α} (h : LogLE c.store c'.store) (sid : Nat) :
+    ((c.store sid).getD []).length ≤ ((c'.store sid).getD []).length := by
+  cases hl : c.store sid with
+  | none => simp
+  | some log =>
+    obtain ⟨more, hm⟩ := h sid log hl
+    simp [hm]
+
 theorem grow_step {c : Conn α} (h : Inv c) (l : Label α) : Grow c (step c l) := by
   cases l with
   | post calls listen ver budget => exact grow_post h _ _ _ _
@@ -254,6 +343,50 @@ theorem grow_step {c : Conn α} (h : Inv c) (l : Label α) : Grow c (step c l) :
   | get hdr ver budget => exact grow_get h _ _ _
   | sclose req retry => exact grow_sclose h _ _
   | «end» => exact ⟨GrowX.refl _, LogLE.refl _, Nat.le_refl _, rfl⟩
+  | evict sid n => exact ⟨GrowX.refl _, LogLE.refl _, Nat.le_refl _, rfl⟩
+
+theorem invP_step {c : Conn α} (hw : Inv c) (h : InvP c) (l : Label α) : InvP (step c l) := by
+  by_cases hl : ∀ sid n, l ≠ .evict sid n
+  · intro sid
+    rw [step_purged_other c l hl]
+    exact Nat.le_trans (h sid) (logLen_mono (grow_step hw l).store sid)
+  · cases l with
+    | evict sid n =>
+      intro k
+      show (evict c sid n).purged k ≤ (((evict c sid n).store k).getD []).length
+      simp only [evict]
+      split
+      · rename_i hk
+        subst hk
+        have := h k
+        omega
+      · exact h k
+    | post _ _ _ _ => exact absurd (by intros; simp) hl
+    | write _ _ _ => exact absurd (by intros; simp) hl
+    | cut _ => exact absurd (by intros; simp) hl
+    | wfail _ => exact absurd (by intros; simp) hl
+    | get _ _ _ => exact absurd (by intros; simp) hl
+    | sclose _ _ => exact absurd (by intros; simp) hl
+    | «end» => exact absurd (by intros; simp) hl
+
+/-- `purged` only moves forward -/
+theorem purged_mono_step (c : Conn α) (l : Label α) (sid : Nat) : c.purged sid ≤ (step c l).purged sid := by
+  by_cases hl : ∀ sid n, l ≠ .evict sid n
+  · rw [step_purged_other c l hl]; exact Nat.le_refl _
+  · cases l with
+    | evict s n =>
+      show c.purged sid ≤ (evict c s n).purged sid
+      simp only [evict]
+      split
+      · omega
+      · exact Nat.le_refl _
+    | post _ _ _ _ => exact absurd (by intros; simp) hl
+    | write _ _ _ => exact absurd (by intros; simp) hl
+    | cut _ => exact absurd (by intros; simp) hl
+    | wfail _ => exact absurd (by intros; simp) hl
+    | get _ _ _ => exact absurd (by intros; simp) hl
+    | sclose _ _ => exact absurd (by intros; simp) hl
+    | «end» => exact absurd (by intros; simp) hl
 
 theorem inv_runFrom {c : Conn α} (h : Inv c) (ls : List (Label α)) : Inv (run c ls) := by
   induction ls generalizing c with
@@ -266,5 +399,17 @@ theorem grow_run {c : Conn α} (h : Inv c) (ls : List (Label α)) : Grow c (run 
   | cons l t ih =>
     simp only [run, List.foldl_cons]
     exact (grow_step h l).trans (ih (inv_step h l))
+
+theorem invP_runFrom {c : Conn α} (hw : Inv c) (h : InvP c) (ls : List (Label α)) : InvP (run c ls) := by
+  induction ls generalizing c with
+  | nil => exact h
+  | cons l t ih => simp only [run, List.foldl_cons]; exact ih (inv_step hw l) (invP_step hw h l)
+
+theorem purged_mono_run (c : Conn α) (ls : List (Label α)) (sid : Nat) : c.purged sid ≤ (run c ls).purged sid := by
+  induction ls generalizing c with
+  | nil => exact Nat.le_refl _
+  | cons l t ih =>
+    simp only [run, List.foldl_cons]
+    exact Nat.le_trans (purged_mono_step c l sid) (ih (step c l))
 
 end Resume
